@@ -702,7 +702,7 @@ type GuardSpec struct {
 var clauseKeywords = map[string]bool{
 	"func": true, "props": true, "trusted": true, "pure": true, "ghost": true, "requires": true, "ensures": true,
 	"assigns": true, "may_panic": true, "loop": true, "axiom": true, "lemma": true, "ghostfield": true, "cover": true,
-	"ghostset": true, "writers": true, "use": true, "callback": true, "cut": true, "structural": true, "inline": true, "guarded_by": true, "hint": true, "spec": true, "globalinv": true,
+	"ghostset": true, "writers": true, "use": true, "callback": true, "cut": true, "structural": true, "inline": true, "guarded_by": true, "broadcast_only": true, "hint": true, "spec": true, "globalinv": true,
 }
 
 // splitLabel parses an optional "[P1,P2:label]" prefix.
@@ -1057,6 +1057,19 @@ func ParseFile(path string) (*File, error) {
 			}
 			d := strings.LastIndex(fs[0], ".")
 			f.Guarded = append(f.Guarded, GuardSpec{Type: fs[0][:d], Lock: fs[0][d+1:], Fields: strings.Split(fs[1], ","), Props: props, Line: rl.line})
+		case "broadcast_only":
+			// broadcast_only [C12:label] Type.condField -- waiters of different kinds share the condition variable:
+			// every wake-up anywhere in the module must be a Broadcast, never a Signal
+			props, _, r := splitLabel(rest)
+			fs := strings.Fields(r)
+			d := -1
+			if len(fs) == 1 {
+				d = strings.LastIndex(fs[0], ".")
+			}
+			if d < 0 {
+				return nil, fmt.Errorf("%s:%d: bad broadcast_only", path, rl.line)
+			}
+			f.Guarded = append(f.Guarded, GuardSpec{Type: fs[0][:d], Lock: fs[0][d+1:], Fields: []string{"@broadcast_only"}, Props: props, Line: rl.line})
 		default:
 			return nil, fmt.Errorf("%s:%d: unknown clause %q", path, rl.line, kw)
 		}
